@@ -89,7 +89,7 @@ struct Flow : Prop {
 		bool slow_answers = false;
 		for (int p = 0; p < nph; p++) {
 			J ph = J::obj();
-			if (is_c04 && r.chance(200)) {
+			if ((is_c04 && r.chance(200)) || (!is_c04 && !faulty && r.chance(60))) {
 				// focused stall: node S (the addressee N itself or an ancestor of it) stalls; one task then submits to N either more requests than one
 				// response budget holds, or more messages than any bounded queue would keep (130-170); S clears the stall after 0.05-4.5 s and N
 				// sends a spontaneous report right behind the notice (before any answer: answers are slow in such runs)
